@@ -461,7 +461,7 @@ fn gen_hf_lattice_case(r: &mut Rng, lat: bool, fam: &mut std::collections::BTree
     for (k, &ax) in HAXES.iter().enumerate() {
         let n = ncell[k] as i64;
         let l = if vel[ax] > 0.0 { r.range(1, n - 3) } else if vel[ax] < 0.0 { r.range(3, n - 1) } else { r.range(1, n - 1) } as usize;
-        let frac: f64 = if (force_line && vel[ax] != 0.0) || r.below(3) == 0 { 0.0 } else if vel[ax] > 0.0 { *r.pick(&[0.5, 0.25]) } else if vel[ax] < 0.0 { *r.pick(&[-0.5, -0.25]) } else { *r.pick(&[0.0, 0.5, -0.25]) };
+        let frac: f64 = if (force_line && vel[ax] != 0.0) || r.below(3) == 0 { 0.0 } else if vel[ax] > 0.0 { *r.pick(&[0.5, 0.25]) } else if vel[ax] < 0.0 { *r.pick(&[-0.5, -0.25]) } else { *r.pick(&[0.0, 0.3, -0.3]) };   // no motion along this axis: keep the faces of the box off the grid lines (a box sliding exactly along a line only ties with the cells beyond it)
         let (a, b2) = (lines[k][l], if frac >= 0.0 { lines[k][l + 1] } else { lines[k][l - 1] });
         start[ax] = if frac == 0.0 { a } else { a + (b2 - a) * frac.abs() };
         if frac == 0.0 { on_line += 1; if vel[ax] < 0.0 { neg_on_line = true; } }
